@@ -37,6 +37,7 @@ func NewCtx(p *core.Prog, r *report.Run, tier string) *Ctx {
 	c := &Ctx{P: p, R: r, O: core.NewOrigins(), Tier: tier, reach: map[*ssa.Function]*core.Reach{},
 		sums: map[sumKey]core.DNF{}, sumBad: map[sumKey]bool{}, sumBusy: map[*ssa.Function]bool{}}
 	core.Expander = c.summaryOf
+	core.SpillGuardOK = c.guardedResultWrites
 	return c
 }
 
